@@ -131,7 +131,7 @@ theorem spec_liftT {g} {f : Src → α × Src} {R : α → Bytes → Prop}
   obtain ⟨adv, r⟩ := h s.src w
   exact ⟨adv, id, fun _ => r⟩
 
-theorem seg_of_read {s s' : Src} {n : Nat} (adv : Adv s s') (ho : s'.off = s.off + n) :
+theorem seg_of_read {s s' : Src} {n : Nat} (_adv : Adv s s') (ho : s'.off = s.off + n) :
     seg s s' = (s.bs.drop s.off).take n := by
   unfold seg
   rw [ho]
@@ -588,7 +588,7 @@ theorem nextBytes_eof_off (s : Src) (n : Nat) (d : Bytes) (s' : Src)
     rw [← h2]
     simp only [h3, if_true, and_self]
 
-theorem nextBytes_at_end (s : Src) (n : Nat) (hn : 0 < n) (hn2 : n < two64) (w : s.wf) (he : s.off = s.bs.length) :
+theorem nextBytes_at_end (s : Src) (n : Nat) (hn : 0 < n) (_hn2 : n < two64) (w : s.wf) (he : s.off = s.bs.length) :
     nextBytes s n = some (([], true), s) := by
   obtain ⟨w1, w2⟩ := w
   unfold nextBytes safeAdd goSlice
@@ -778,7 +778,7 @@ theorem spec_decAddr_alloc :
   refine ⟨_, count, rfl, ?_, ?_⟩
   · simp only [List.length_take]; split <;> omega
   · rw [h5.1]
-    simp only [List.length_append, leN_length, List.append_nil, List.length_nil, Nat.add_zero, Nat.zero_add, h3.2]
+    simp only [List.length_append, leN_length, List.append_nil, List.length_nil, Nat.zero_add, h3.2]
 
 theorem spec_decCloser : Spec true decCloser (fun p w => w = encPair p ∧ True) := by
   unfold decCloser
